@@ -400,10 +400,17 @@ class LtlAstParserVisitor(LtlParserVisitor):
 
         self.out_var = id_head
         self.out_var_field = id_tail
-        self.free_vars.discard(id_head)
+        # the variable that receives the result is not an input, unless the formula reads it (another field of the same object)
+        if not self.reads(out, id_head):
+            self.free_vars.discard(id_head)
         self.specs.append(out)
 
         return
+
+    def reads(self, node, var_name):
+        if isinstance(node, Variable) and node.var == var_name:
+            return True
+        return any(self.reads(child, var_name) for child in node.children)
 
     def visitSpecification_file(self, ctx):
         self.visit(ctx.specification())
